@@ -7,6 +7,34 @@ HERE = os.path.dirname(os.path.dirname(os.path.abspath(__file__)))
 
 # id -> (category, technique, text, note, design_ref)
 CLAIMED = {
+    "C01": (
+        "model_checking",
+        "explicit-state BFS over live simulator backends (real Operation.apply on deep copies), canonical-hash dedup, reference-model comparison on every transition",
+        "Breadth-first search of the reachable states of the Gaussian, bosonic, Fock-pure and Fock-mixed simulators on 1-3 modes under a ~60-operation alphabet on every ordered target tuple (quick: 1.7e5 transitions, depth 2-3; thorough one level deeper and cutoff 7). On every transition the implementation state must equal an independent reference: phase-space (mean, cov) built from the documented Bogoliubov transformations for Gaussian/bosonic (1e-9), and a dense truncated-operator Fock reference (expm of the documented generator at an extended cutoff, same cutoff as the simulator) for Fock pure and mixed (1e-9).",
+        "Trusted: numpy/scipy (expm, eigvalsh), the docstring transcription in mc/ref. Finite parameter lattice, register size <= 3, cutoff <= 7; the 'up to truncation' clause is decided as exact agreement with the truncated-operator reference at the same cutoff (for MZgate either of its two truncated readings). TensorFlow backend not installed, not explored.",
+        "DESIGN.md sections 2 and 4 (C01)",
+    ),
+    "C04": (
+        "exploration",
+        "exhaustive enumeration of command sequences x choice-DFS over every legal topological-sort answer, run on the real reordering routines",
+        "All 4.2e5 command sequences of length <= 4 (thorough <= 5) over a 25-letter abstract alphabet on 3 modes go through list_to_grid, grid_to_DAG, list_to_DAG, DAG_to_list, group_operations (2 predicates), optimize_circuit and GBS.compile; for length <= 3 (thorough 4) networkx' topological sorts are replaced by a chooser and every routine is re-executed for every linearisation the sort may legally return. Output must be the same command objects with every dependent pair in order and no marked operation outside B.",
+        "Trusted: the O(L^2) pairwise dependency reference; networkx graph primitives other than the two sort functions. 3 modes, sequences up to length 5.",
+        "DESIGN.md section 4 (C04)",
+    ),
+    "C05": (
+        "model_checking",
+        "explicit-state BFS over live simulator backends; differential spectator oracle on implementation data before/after every transition",
+        "Same state graph as C01. For every (reachable correlated/displaced/mixed state, operation, ordered target tuple): the reduced state of all non-target modes computed from the implementation's own data is unchanged (1e-10 Gaussian/bosonic; on Fock bounded rigorously by the norm lost to truncation in that step), preparations leave the documented state on the targets, uncorrelated with the rest.",
+        "Same bounds as C01. Measurement/deletion post-states are covered by C06/C08.",
+        "DESIGN.md sections 2 and 4 (C05)",
+    ),
+    "C07": (
+        "model_checking",
+        "explicit-state BFS over live simulator backends; physicality invariants in every state and conservation laws on every transition",
+        "Same state graph as C01. Every reached state: covariance symmetric with V + i Omega >= 0, Fock dm Hermitian, PSD, trace <= 1, pure flag consistent, bosonic weights sum to 1. Every transition: unitary gates preserve purity, passive gates total photon number, loss never increases a mean photon number, Fock trace changes exactly by what the truncated-operator reference loses.",
+        "Same bounds as C01; Fock conservation laws carry the slack the lost norm allows (rigorous bound), nothing more.",
+        "DESIGN.md sections 2 and 4 (C07)",
+    ),
     "C03": (
         "exploration",
         "exhaustive enumeration of all operation sequences up to a length bound, executed on the real optimizer, judged by a reference affine-map semantics",
